@@ -124,7 +124,8 @@ def get_facts(repo="/repo", profile="dev", crate="neurons", quiet=False, slot=""
         desugar.run(f)
         inline.inline_new_helpers(f)
         desugar.run(f)      # inlined helper bodies may contain the same surface forms
-        names.normalise(f)
+        if normalise != "no-names":
+            names.normalise(f)
     return f
 
 
